@@ -102,6 +102,8 @@ def orientation(prog, fi, e):
 
 
 def check(prog, run):
+    from . import C01
+    C01.eigvec_rule(prog, run)          # the sensitivities use (left, right) eigenvectors by position
     run.rule("R-vec-order", "vectorisation order of the factor columns (producer) = order expected by the Kronecker forms of the propagation (consumer)", 3)
     run.rule("R-orientation", "left singular vectors = columns of svd()[0], right singular vectors = rows of svd()[2]; truncation selects vectors, not components", 2)
     run.rule("R-block-scale", "block estimate: weight x products equals that of the full estimate", 1)
@@ -449,13 +451,16 @@ def var_slot(prog, run):
     n = st[0]
     x = astq.expr_at(pf, n, n.value)
     inner = astq.strip_abs(prog, pf, x) or x
-    ok = False
-    if isinstance(inner, ast.Subscript) and [astq.src(e) for e in astq.index_elts(inner)] == ["0", "0"]:
-        try:
-            A, B = product_operands(prog, pf, inner.value)
-            ok = astq.dump(A) == astq.dump(B)
-        except Und:
-            ok = False
+    ok = None               # a value that is not written as an element of a product is not judged
+    if isinstance(inner, ast.Subscript) and all(isinstance(e, ast.Constant) and isinstance(e.value, int) for e in astq.index_elts(inner)) and len(astq.index_elts(inner)) == 2:
+        if [astq.src(e) for e in astq.index_elts(inner)] != ["0", "0"]:
+            ok = False          # another element of the 2 x 2 covariance of (frequency, damping)
+        else:
+            try:
+                A, B = product_operands(prog, pf, inner.value)
+                ok = astq.dump(A) == astq.dump(B)
+            except Und:
+                ok = None
     run.ob("R-var-slot", fi.qual, "variance = |(U U^T)[0, 0]|", ok, f"`{astq.src(n.value, 60)}` = `{astq.src(x, 60)}`", astq.src(n.value, 60), file=f, node=n)
     el = astq.index_elts(n.targets[0])
     # (pole index = inner loop variable over the eigenvalues, order = outer loop variable)
@@ -464,6 +469,10 @@ def var_slot(prog, run):
     outer_loop = astq.enclosing(pm, inner_loop, (ast.For,)) if inner_loop is not None else None
     ok2 = len(el) == 2 and inner_loop is not None and outer_loop is not None and isinstance(el[0], ast.Name) and isinstance(inner_loop.target, ast.Name) \
         and el[0].id == inner_loop.target.id and isinstance(el[1], ast.Name) and isinstance(outer_loop.target, ast.Name) and el[1].id == outer_loop.target.id
+    if not ok2:
+        swapped = len(el) == 2 and inner_loop is not None and outer_loop is not None and isinstance(el[0], ast.Name) and isinstance(el[1], ast.Name) \
+            and isinstance(inner_loop.target, ast.Name) and isinstance(outer_loop.target, ast.Name) and el[0].id == outer_loop.target.id and el[1].id == inner_loop.target.id
+        ok2 = False if swapped else None        # only the two loop variables in the wrong order are recognisably wrong
     run.ob("R-var-slot", fi.qual, "stored at (pole, order)", ok2, f"`{astq.src(n.targets[0])}`", astq.src(n.targets[0]), file=f, node=n)
 
 
